@@ -106,7 +106,7 @@ def run_region(ctx, mach, o, us, n, u, name, extra_pre=()):
     outs = ex.run_stmt(st, region)
     vals, raises = [], []
     for out in outs:
-        if out.kind == 'next':
+        if out.kind in ('next', 'continue'):        # `continue` inside the token loop ends this token's step with the current t
             vals.append((suffix(out.st, base), out.st.env['t']))
         elif out.kind == 'raise':
             raises.append((suffix(out.st, base), out.val))
